@@ -59,8 +59,19 @@ def body(chk):
         cases.append(dict(level="1.5", seed=chk.seed + 760 + j, k=j, files=("VOL",), images=(("HH", None, 1, 1),), nfp=(None, 0, 12, 3)[j], fs=("local", "vtrace")[j % 2],
                           vol_trailing=tr, ctx=dict(creation_datetime=STAMPS[j % len(STAMPS)]), stamp=f"trailing-{tr[0]}{tr[1]}"))
     # all text fields blank at once (padding only): attributes are empty strings, nothing else changes
+    # more file pointers than any product has (the count is a count, not a class): 22, 23, 30, 100
+    for j, nfp in enumerate((22, 23, 30, 100)):
+        cases.append(dict(level="1.5", seed=chk.seed + 780 + j, k=j, nfp=nfp, files=("VOL",), images=(("HH", None, 1, 1),), fs="local",
+                          ctx=dict(creation_datetime=STAMPS[j % len(STAMPS)]), stamp=f"nfp{nfp}"))
+    # inputs the format does not admit (the required creation date-time blank) may be refused -- and must leave no trace: they are
+    # interleaved with the ordinary cases so that every worker process meets one before ordinary volume directories
+    rej = [dict(level="1.5", seed=chk.seed + 790 + j, k=j % K, files=("VOL",), images=(("HH", None, 1, 1),), fs="local", may_reject=True,
+                blank=[("VOL", "volume_descriptor", 0, "logical_volume_creation_datetime")], stamp=f"blank-required-{j}") for j in range(16)]
+    step = max(1, len(cases) // len(rej))
+    for j, v in enumerate(rej):
+        cases.insert(j * (step + 1), v)
     results, total = lc.replay(chk, cases, "volume", lambda c: f"plan={c['k']}{'r' if c.get('random_classes') else ''}:nfp={c.get('nfp')}" + (f":stamp={c['stamp'][12:]}" if c.get("stamp") else ""))
-    ok = next(r for r in results if r["open"] == "ok")
+    ok = next(r for r in results if r["open"] == "ok" and not r["case"].get("may_reject"))
     chk.sample({"plan": ok["case"]["k"], "file_pointer_records": ok["case"].get("nfp"), "attributes_compared": ok["n"]})
     chk.assumptions += ["creation date-time: the ISO-8601 attribute is compared as an instant with the 16-character field"]
     from harness import sessioncheck
